@@ -592,3 +592,8 @@
 (declare-fun num_text10 (Int Real Bool) String)
 ; ghost: the collection an element iterator was created for (iterators are not under contract yet)
 (declare-fun it_coll (Any) cty.Value)
+; ghost: "both callbacks of this transformer return their argument unchanged and no error" (an identity
+; transformer); the interface contracts of Transformer.Enter / Exit say what that means
+(declare-fun tr_identity (Any) Bool)
+; number of elements as reported by LengthInt (uninterpreted; LengthInt is not under contract yet)
+(declare-fun len_int (cty.Value) Int)
